@@ -106,9 +106,14 @@ struct SimplePath {
 
 /// All token-simple paths from `src` with 1..=max_steps edges (what the depth-first search can walk).
 fn simple_paths(case: &Case, src: usize) -> Vec<SimplePath> {
+    simple_paths_upto(case, src, case.max_steps)
+}
+
+/// Same with an explicit bound on the number of edges.
+fn simple_paths_upto(case: &Case, src: usize, cap: usize) -> Vec<SimplePath> {
     let mut out = vec![];
-    fn rec(case: &Case, cur: usize, on_path: &mut Vec<bool>, mkts: &mut Vec<usize>, costs: &mut Vec<i64>, nodes: &mut Vec<usize>, out: &mut Vec<SimplePath>) {
-        if mkts.len() == case.max_steps {
+    fn rec(case: &Case, cap: usize, cur: usize, on_path: &mut Vec<bool>, mkts: &mut Vec<usize>, costs: &mut Vec<i64>, nodes: &mut Vec<usize>, out: &mut Vec<SimplePath>) {
+        if mkts.len() == cap {
             return;
         }
         for k in 0..case.markets.len() {
@@ -122,7 +127,7 @@ fn simple_paths(case: &Case, src: usize) -> Vec<SimplePath> {
                 costs.push(cost);
                 nodes.push(next);
                 out.push(SimplePath { mkts: mkts.clone(), last: next, prefix_costs: costs.clone(), nodes: nodes.clone() });
-                rec(case, next, on_path, mkts, costs, nodes, out);
+                rec(case, cap, next, on_path, mkts, costs, nodes, out);
                 nodes.pop();
                 costs.pop();
                 mkts.pop();
@@ -132,7 +137,7 @@ fn simple_paths(case: &Case, src: usize) -> Vec<SimplePath> {
     }
     let mut on_path = vec![false; case.n_tokens];
     on_path[src] = true;
-    rec(case, src, &mut on_path, &mut vec![], &mut vec![], &mut vec![], &mut out);
+    rec(case, cap, src, &mut on_path, &mut vec![], &mut vec![], &mut vec![], &mut out);
     out
 }
 
@@ -144,7 +149,15 @@ fn simple_paths(case: &Case, src: usize) -> Vec<SimplePath> {
 /// when nothing was returned) has such a competing arrival — or when there is no token-simple candidate
 /// at all (the better path revisits a token, which a depth-first search over tokens never walks).
 fn dfs_loss_is_explained(all: &[SimplePath], dst: usize, returned_cost: Option<i64>) -> bool {
-    let candidates: Vec<&SimplePath> = all
+    loss_is_explained(all, all, dst, returned_cost)
+}
+
+/// General form: candidates are taken from `within` (paths within the step limit), competing arrivals
+/// from `competitors` (for Bellman-Ford: token-simple routes of any length, because in-place relaxation
+/// chains several edges per round and the predecessor chain of the target can then exceed the limit).
+fn loss_is_explained(within: &[SimplePath], competitors: &[SimplePath], dst: usize, returned_cost: Option<i64>) -> bool {
+    let all = competitors;
+    let candidates: Vec<&SimplePath> = within
         .iter()
         .filter(|p| p.last == dst && returned_cost.map(|g| *p.prefix_costs.last().unwrap() < g).unwrap_or(true))
         .collect();
@@ -337,6 +350,7 @@ pub fn run(args: &Args) -> i32 {
                 }
                 let best = brute(&case, src);
                 let simple = simple_paths(&case, src);
+                let simple_long = simple_paths_upto(&case, src, case.n_tokens);
                 for skip_bf in [false, true] {
                     let paths = match guard(|| graph.best_swap_paths(&token_pk(src), skip_bf)) {
                         Ok(Ok(p)) => p,
@@ -492,7 +506,12 @@ pub fn run(args: &Args) -> i32 {
                                     if dst != src {
                                         if mode == "dfs" && !dfs_loss_is_explained(&simple, dst, None) {
                                             m.violation("C42:dfs:path_lost_without_competing_arrival", wit("nothing recommended although a token-simple path within max_steps exists and no token on it is reached as cheaply by another route"));
+                                        } else if mode == "bellman_ford" && !loss_is_explained(&simple, &simple_long, dst, None) {
+                                            m.violation("C42:bellman_ford:path_lost_without_competing_arrival", wit("nothing recommended although a token-simple path within max_steps exists and no token on it is reached as cheaply by another (possibly longer) route"));
                                         } else {
+                                            if mode == "bellman_ford" {
+                                                m.count("bellman_ford_loss_explained_by_competing_arrival");
+                                            }
                                             if mode == "dfs" {
                                                 m.count("dfs_loss_explained_by_competing_arrival");
                                             }
